@@ -13,7 +13,8 @@ class C07(Prop):
             "clock steps); every output packet is traced back to the simulated connection and to the tap frames of the "
             "record/datagram it carries; non-trivial = at least one data packet was exported; distinct = spec digests")
     reach = ["ipv6", "record_spans_3_packets", "duplicate_segment", "timestamp_tie", "clock_step_back", "clock_step_fwd",
-             "quic_datagram", "multi_conn", "coarse_clock", "quic_cross_direction_tie"]
+             "quic_datagram", "multi_conn", "coarse_clock", "quic_cross_direction_tie", "quic_client_address_change",
+             "quic_first_seen_packet_from_server"]
 
     def plan(self, tier):
         p = super().plan(tier)
@@ -25,7 +26,7 @@ class C07(Prop):
         R = Rng(seed, "C07")
         cfg = {"records_max": 10, "len_max": 5000, "isn_wrap": False, "seg_pct": 85,
                "net": {"delay": 25, "lost_before": 10, "dup": 40, "dup_rto": 20, "dup_late": 10, "_D": 4}, "net_pct": 50,
-               "quic_pct": 35, "quic": {}}
+               "quic_pct": 35, "quic": {"migrate_pct": 25, "retry_pct": 30}}
         spec = gen.gen_mixed_world(R.fork("world"), cfg)
         spec["prop"] = "C07"
         tap = spec["tap"]
@@ -36,6 +37,20 @@ class C07(Prop):
             for _ in range(R.range(1, 3)):
                 steps.append([R.below(max(1, n)), R.choice([-1, 1]) * R.choice([1, 17, 1000, 999999, 3600000000, 86400000000])])
             tap["steps"] = steps
+        retry = [c for c in spec["conns"] if c["proto"] == "quic" and c["q"].get("retry") and not c["q"].get("zero_rtt")]
+        if retry and R.chance(50):
+            # the capture starts right behind the client's first Initial of a connection that goes through Retry:
+            # the first packet TLExport sees of it comes from the server, the connection is still decryptable
+            ex = world.expand(spec)
+            first = [e["i"] for e in ex["taplog"] if e["conn"] == retry[0]["id"]]
+            ndg = 0
+            for e in ex["taplog"]:
+                if e["conn"] == retry[0]["id"] and e["d"] == "s":
+                    break
+                if e["conn"] == retry[0]["id"]:
+                    ndg += 1
+            spec["faults"] = [{"k": "drop", "i": i} for i in first[:ndg]]
+            spec["late_retry"] = True
         if R.chance(25):
             tap["res_us"] = R.choice([10, 1000, 1000, 10000])
             for c in spec["conns"]:
@@ -215,11 +230,15 @@ class C07(Prop):
                         seen[f["ts"]] = f["d"]
         if len(spec["conns"]) > 1:
             out.count("reach:multi_conn")
+        if spec.get("late_retry"):
+            out.count("reach:quic_first_seen_packet_from_server")
         for conn, t in zip(spec["conns"], ex["truth"]["conns"]):
             if conn["v6"]:
                 out.count("reach:ipv6")
             if conn["proto"] == "quic":
                 out.count("reach:quic_datagram")
+                if conn.get("c_mig"):
+                    out.count("reach:quic_client_address_change")
                 continue
             if any(f["dup"] for f in t["frames"]):
                 out.count("reach:duplicate_segment")
